@@ -33,6 +33,9 @@ BASE_ISA = {
             'abs': {'type': 'numeric', 'bytecode': {'value': 1, 'size': 4}, 'argument': {'size': 16, 'byte_align': True}},
             'rc': {'type': 'relative_address', 'use_curly_braces': True, 'bytecode': {'value': 2, 'size': 4},
                    'argument': {'size': 8, 'byte_align': True, 'min': -128, 'max': 127}}}},
+        # an indirect register with an offset: @ARG is the offset text as written, @REG the register
+        'indreg': {'operand_values': {'isp': {'type': 'indirect_register', 'register': 'sp', 'bytecode': {'value': 3, 'size': 4},
+                                              'offset': {'size': 8, 'byte_align': True}}}},
         'ind': {'operand_values': {'in': {'type': 'indirect_numeric', 'argument': {'size': 16, 'byte_align': True}}}},
         'enum': {'operand_values': {'e': {'type': 'enumeration', 'bytecode': {'size': 4, 'value_dict': {'foo': 3, 'bar': 5}},
                                           'argument': {'size': 4, 'byte_align': False, 'value_dict': {'foo': 3, 'bar': 5}}}}},
@@ -47,6 +50,7 @@ BASE_ISA = {
         'ldm': {'bytecode': {'value': 0x5, 'size': 4}, 'operands': {'count': 1, 'operand_sets': {'list': ['ind']}}},
         'sel': {'bytecode': {'value': 0x6, 'size': 4}, 'operands': {'count': 1, 'operand_sets': {'list': ['enum']}}},
         'push': {'bytecode': {'value': 0x7, 'size': 4}, 'operands': {'count': 1, 'operand_sets': {'list': ['reg']}}},
+        'ldo': {'bytecode': {'value': 0xD, 'size': 4}, 'operands': {'count': 1, 'operand_sets': {'list': ['indreg']}}},
         'jt': {'bytecode': {'value': 0xC, 'size': 4}, 'operands': {'count': 1, 'operand_sets': {'list': ['target']}}},
     },
 }
@@ -59,6 +63,7 @@ NUMS = [('5', '5', None), ('start', 'start', None), ('fwd', 'fwd', None), ('fwd+
 REGOPS = [('a', None, 'a'), ('b', None, 'b')]
 INDS = [('[fwd]', 'fwd', None), ('[ start + 2 ]', 'start + 2', None)]
 ENUMS = [('foo', None, None), ('bar', None, None)]
+INDREGS = [('[sp + 3]', '3', 'sp'), ('[sp+fwd]', 'fwd', 'sp'), ('[ sp + 1+2 ]', '1+2', 'sp')]
 CURLIES = [('{fwd}', 'fwd', None), ('{ start }', 'start', None), ('{fwd+1}', 'fwd+1', None)]
 PATTERNS = {
     'ri': (['reg', 'imm'], [REGOPS, NUMS]),
@@ -68,6 +73,7 @@ PATTERNS = {
     'e': (['enum'], [ENUMS]),
     'ir': (['imm', 'reg'], [NUMS, REGOPS]),
     'c': (['relc'], [CURLIES]),
+    'd': (['indreg'], [INDREGS]),
 }
 # step templates usable with each pattern; 'BAD' marks templates whose placeholder cannot be filled
 TEMPLATES = {
@@ -79,6 +85,7 @@ TEMPLATES = {
     'e': ['sel @OP(0)', 'n12 1', 'nop'],
     'ir': ['ldi @REG(1), @ARG(0)', 'ldi @OP(1), @OP(0)', 'brr @ARG(0)', 'n12 @ARG(0)'],
     'c': ['jt @OP(0)', 'jt {@ARG(0)}', 'jt @ARG(0)', 'brr @ARG(0)', 'nop'],
+    'd': ['ldo @OP(0)', 'ldo [@REG(0) + 2*@ARG(0)]', 'n12 2*@ARG(0)', 'ldo [@REG(0)+@ARG(0)]', 'ldi a, 10 - @ARG(0)'],
 }
 BAD_TEMPLATES = {
     'ri': ['push @REG(1)', 'n12 @ARG(0)', 'n12 @ARG(2)', 'push @OP(2)', 'push @REG(2)'],
@@ -144,7 +151,7 @@ def sequences(acc, tier, idx, n):
 def meta(tier):
     q = tier == 'quick'
     return {
-        'rule': 'macro definitions: 7 operand patterns (incl. a relative operand written in braces, forwarded to an instruction that reads a bare operand as absolute) x every sequence of 1..3 (thorough 4) step templates of the pattern\'s catalogue '
+        'rule': 'macro definitions: 8 operand patterns (incl. an indirect register with an offset, whose argument text is the offset as written, and a relative operand written in braces, forwarded to an instruction that reads a bare operand as absolute) x every sequence of 1..3 (thorough 4) step templates of the pattern\'s catalogue '
                 '(12-bit steps, relative-address steps, register / numeric / indirect / enumeration operands, every placeholder kind, '
                 'expressions around placeholders), as the only variant and as the second of two variants; invocations: every '
                 'combination of operand alternatives (literals, backward and forward labels, label expressions, registers); '
